@@ -9,6 +9,7 @@ import (
 	_ "verifengine/props/c01"
 	_ "verifengine/props/c04"
 	_ "verifengine/props/c05"
+	_ "verifengine/props/c10"
 	_ "verifengine/props/c12"
 	_ "verifengine/props/c13"
 	_ "verifengine/props/c14"
